@@ -42,7 +42,7 @@ func dropListZsetForMergeCrash(c Case, st *Stats) Case {
 
 func runC16(c Case, st *Stats) error {
 	c = dropListZsetForMergeCrash(c, st)
-	return runCrashCase(c, st, "C16", crashOpts{CheckState: true, OnlyMerge: true, Torn: true})
+	return runCrashCase(c, st, "C16", crashOpts{CheckState: true, OnlyMerge: true, Torn: true, Continue: true})
 }
 
 func init() { register("C16", runC16) }
